@@ -106,6 +106,7 @@ type Trans struct {
 	trusted map[string]bool // trusted / assumed things used
 	inlineDepth int
 	unsupported []string
+	mergeInfo map[string][]edge // merged epoch -> the incoming states (arrays first used later are resolved through them)
 	verAlloc  map[string]string // heap array version -> allocation counter when the version was created
 	baseAlloc map[string]string
 	lastAlloc string
@@ -121,6 +122,18 @@ func (t *Trans) noteVersion(c string, alloc string) {
 }
 
 func (t *Trans) trust(s string) { t.trusted[s] = true }
+
+// closureID: a distinct positive number per function literal (type tag table reused).
+func (t *Trans) closureID(fn *ssa.Function) string {
+	k := "closure:" + FnKey(fn)
+	if id, ok := t.B.typeIDs[k]; ok {
+		return fmt.Sprint(id)
+	}
+	id := len(t.B.typeIDs) + 1
+	t.B.typeIDs[k] = id
+	t.B.typeOrd = append(t.B.typeOrd, k)
+	return fmt.Sprint(id)
+}
 
 // globalAddr declares the address of a package-level variable: non-nil and allocated before the function runs.
 func (t *Trans) globalAddr(name string) string {
@@ -147,6 +160,25 @@ func (t *Trans) get(st *State, name, sort string) string {
 	base := st.base
 	if st.rbase != st.base && t.P.mentionsRepoType(name) {
 		base = st.rbase
+	}
+	if es, ok := t.mergeInfo[base]; ok && !strings.HasPrefix(name, "L:") {
+		// the epoch is a control-flow join: the array is the join of its versions in the incoming states
+		out := t.get(es[len(es)-1].st, name, sort)
+		same := true
+		for i := len(es) - 2; i >= 0; i-- {
+			v := t.get(es[i].st, name, sort)
+			if v != out {
+				same = false
+			}
+			out = ite(es[i].cond, v, out)
+		}
+		c := out
+		if !same {
+			c = t.B.define(name, sort, out)
+			t.noteVersion(c, t.baseAlloc[base])
+		}
+		st.heap[name] = c
+		return c
 	}
 	c := t.B.declConst(t.arrayEntryName(name, base), sort)
 	st.heap[name] = c
@@ -347,6 +379,7 @@ type frame struct {
 	loopEff map[*loopInfo]*effects
 	loopPre map[*loopInfo]*State
 	callLog map[string][]callRec
+	preTerm string // the function's precondition (top frame)
 	prefix string // obligation label prefix of an inlined activation
 	silent bool   // no obligations (evaluation of contract expressions)
 }
@@ -538,6 +571,14 @@ func (f *frame) mergeEdges(es []edge) (string, *State) {
 	if !sameBase {
 		st.base = t.B.fresh("m")
 		st.rbase = st.base
+		if t.mergeInfo == nil {
+			t.mergeInfo = map[string][]edge{}
+		}
+		var snap []edge
+		for _, e := range es {
+			snap = append(snap, edge{cond: e.cond, st: e.st})
+		}
+		t.mergeInfo[st.base] = snap
 		for k := range t.arrSort {
 			names[k] = true
 		}
@@ -674,7 +715,13 @@ func (f *frame) valOf(v ssa.Value) *Val {
 		f.vals[v] = val
 		return val
 	case *ssa.Function:
-		val := &Val{term: t.B.declConst("fn:"+FnKey(x)+x.String(), "Int"), closureFn: x}
+		name := "fn:" + FnKey(x) + x.String()
+		fresh := !t.B.declared[q(name)]
+		val := &Val{term: t.B.declConst(name, "Int"), closureFn: x}
+		if fresh {
+			cf := t.B.declFun("closure_fn", []string{"Int"}, "Int")
+			t.B.assert(fmt.Sprintf("(and (> %s 0) (= (%s %s) %s))", val.term, cf, val.term, t.closureID(x)))
+		}
 		f.vals[v] = val
 		return val
 	case *ssa.Builtin:
